@@ -327,3 +327,104 @@ pub proof fn lemma_ground_ok(s: SS, t: Unifiable)
         _ => {},
     }
 }
+
+// --- functor (C17) ----------------------------------------------------------------
+// a term as the built-ins see it: the end of its variable chain, or the (unbound) variable itself
+pub open spec fn rv(s: SS, t: Unifiable) -> Unifiable {
+    match ground_of(s, t) { Some(g) => g, None => t }
+}
+
+// the functor matches the pattern: equal, or prefix match when the pattern ends in `*`
+pub open spec fn amatch(f: Unifiable, m: Seq<char>) -> bool {
+    f is Atom && m.len() > 0 && (
+        if m[m.len() - 1] == '*' { str_has_prefix(f->Atom_0@, m.subrange(0, m.len() - 1)) }
+        else { f->Atom_0@ == m })
+}
+
+pub open spec fn functor_pre(s: SS, ts: Seq<Unifiable>) -> bool {
+    &&& forall|i: int| 0 <= i < ts.len() ==> ok_term(#[trigger] ts[i])
+    // an atom pattern is not the empty atom (it cannot be written in source text)
+    &&& (ts.len() >= 2 ==> (rv(s, ts[1]) is Atom ==> rv(s, ts[1])->Atom_0@.len() > 0))
+}
+
+pub open spec fn functor_post(bip: BuiltInPredicate, ss: RSS, res: Option<RSS>) -> bool {
+    match bip.terms {
+        None => res is None,
+        Some(tv) => {
+            let ts = tv@;
+            if ts.len() < 2 || ts.len() > 3 { res is None }
+            else {
+                let c = rv(ss@, ts[0]);
+                if !(c is SComplex) { res is None }
+                else {
+                    let functor = c->SComplex_0@[0];
+                    let arity = c->SComplex_0@.len() - 1;
+                    let pat = rv(ss@, ts[1]);
+                    if pat is Atom {
+                        if !amatch(functor, pat->Atom_0@) { res is None }
+                        else if ts.len() == 2 { res == Some(ss) }
+                        else { upost(rv(ss@, ts[2]), Unifiable::SInteger(arity as i64), ss, res) }
+                    } else if pat is LogicVar {
+                        if ts.len() == 2 { upost(pat, functor, ss, res) }
+                        else { post_keeps(ss, res) && post_kind(ss, res) && post_acyclic(ss, res) }
+                    } else { res is None }
+                }
+            }
+        },
+    }
+}
+
+// --- join (C17) ----------------------------------------------------------------------
+// Display of a term (format!("{}", term)), uninterpreted
+pub uninterp spec fn disp(t: Unifiable) -> Seq<char>;
+
+// R10 targets for evaluate_join (each body is the wrapped statement)
+#[verifier::external_body]
+pub fn disp_term(t: &Unifiable) -> (r: String)
+    ensures r@ == disp(*t),
+{ unimplemented!() /* format!("{}", t) */ }
+#[verifier::external_body]
+pub fn str_append(out: &mut String, s: &String)
+    ensures final(out)@ == old(out)@ + s@,
+{ unimplemented!() /* *out += s; */ }
+#[verifier::external_body]
+pub fn str_append_spaced(out: &mut String, s: &String)
+    ensures final(out)@ == old(out)@ + (seq![' '] + s@),
+{ unimplemented!() /* *out += &format!(" {}", s); */ }
+
+#[verifier::external_body]
+pub fn atom_of_string(s: &String) -> (r: Unifiable)
+    ensures r is Atom, r->Atom_0@ == s@,
+{ Unifiable::Atom(s.to_string()) }
+
+pub open spec fn is_punct(s: Seq<char>) -> bool {
+    s == ","@ || s == "."@ || s == "?"@ || s == "!"@
+}
+
+// the words joined by single spaces, punctuation attached to the previous word
+pub open spec fn join_text(q: Seq<Unifiable>, i: int, first: bool) -> Seq<char>
+    decreases q.len() - i,
+{
+    if i >= q.len() || i < 0 { Seq::empty() }
+    else {
+        let s = disp(q[i]);
+        if is_punct(s) || first { s + join_text(q, i + 1, false) }
+        else { (seq![' '] + s) + join_text(q, i + 1, false) }
+    }
+}
+
+// all the terms join sees: the values of its arguments and the elements of its list arguments
+pub open spec fn join_terms(s: SS, ts: Seq<Unifiable>, n: int) -> Seq<Unifiable>
+    decreases n,
+{
+    if n <= 0 { Seq::empty() } else { join_terms(s, ts, n - 1) + join_arg(s, ts[n - 1]) }
+}
+pub open spec fn join_arg(s: SS, t: Unifiable) -> Seq<Unifiable> {
+    match ground_of(s, t) {
+        Some(g) => if g is SLinkedList { thru_first_val(s, g, true) } else { seq![g] },
+        None => seq![t],
+    }
+}
+pub open spec fn join_pre(s: SS, ts: Seq<Unifiable>) -> bool {
+    forall|i: int| 0 <= i < ts.len() ==> walk_pre(s, #[trigger] ts[i], true)
+}
